@@ -643,4 +643,8 @@ WITNESSES = [
      "old": "\tcase RTR_ERROR_FATAL:\n\tcase RTR_ERROR_TRANSPORT:\n\tcase RTR_ERROR_NO_DATA_AVAIL:", "new": "\tcase RTR_ERROR_FATAL:\n\tcase RTR_ERROR_NO_DATA_AVAIL:"},
     {"id": "C15.w14-add-group-leaves-lock-on-duplicate", "rule": "C15.R7", "also": ("C15.R2",), "file": MG,
      "old": "\t\t\terr_code = RTR_INVALID_PARAM;\n\t\t\tgoto err;", "new": "\t\t\treturn RTR_INVALID_PARAM;"},
+    {"id": "C15.w-group-count-raised-before-the-group-is-in", "rule": "C15.R2", "file": MG,
+     "old": "\tnew_group->status = RTR_MGR_CLOSED;\n\n\terr_code = rtr_mgr_init_sockets(new_group,", "new": "\tnew_group->status = RTR_MGR_CLOSED;\n\tconfig->len++;\n\n\terr_code = rtr_mgr_init_sockets(new_group,"},
+    {"id": "C15.w-established-means-synced", "rule": "C15.R6", "file": MG,
+     "old": "\t\tif (group_node->group->status == RTR_MGR_ESTABLISHED) {", "new": "\t\tif (rtr_mgr_config_status_is_synced(group_node->group)) {"},
 ]
